@@ -354,31 +354,25 @@ def _evaluate_families(ctx, fams, tag, cap=400):
     return fams
 
 
-def _stream(ctx, fn, items, deadline_left):
-    """ordered results of fn over items from one fork pool, until `ctx.time_left()` drops below `deadline_left`;
-    yields (index, result)"""
+def _stream(ctx, fn, batches, deadline_left):
+    """results of fn over successive batches (lists of items) from one fork pool.  A new batch is started only while
+    `ctx.time_left()` is above `deadline_left`, a started batch is always completed, and the pool is shut down
+    gracefully (close + join with nothing outstanding: `terminate()` on a pool with idle workers was seen to block).
+    Yields (batch, results)."""
     import multiprocessing as mp
     _warm()
-    if ctx.time_left() < deadline_left:
-        return
-    pool = mp.get_context("fork").Pool(min(16, os.cpu_count() or 4))
+    pool = None
     try:
-        it = pool.imap(fn, items, chunksize=1)
-        i = 0
-        while True:
-            try:
-                r = it.next(timeout=max(0.5, ctx.time_left() - deadline_left))
-            except StopIteration:
-                break
-            except mp.TimeoutError:
-                break
-            yield i, r
-            i += 1
+        for batch in batches:
             if ctx.time_left() < deadline_left:
                 break
+            if pool is None:
+                pool = mp.get_context("fork").Pool(min(16, os.cpu_count() or 4))
+            yield batch, pool.map(fn, batch, chunksize=1)
     finally:
-        pool.terminate()
-        pool.join()
+        if pool is not None:
+            pool.close()
+            pool.join()
 
 
 def _account_family(ctx, fam):
@@ -415,21 +409,22 @@ def oracle(ctx):
         all_fams.append(fam)
         done += 1
     ctx.notes["t_minimal_s"] = round(time.time() - t0, 1)
-    fams = {}
+    groups = []
 
-    def items():
-        for fi in range(nmin, nfam):
-            fam = _family(ctx, fi, nedits)
-            fams[fi] = fam
-            for mi, m in enumerate(fam):
-                yield (os.path.join(ctx.tmp, "fam-%d-%d" % (fi, mi)), m["project"], m["sandbox"], "%s/%d/%d" % (ctx.seed, fi, mi), 400)
+    def batches():
+        fi = nmin
+        while fi < nfam:
+            group = [_family(ctx, k, nedits) for k in range(fi, min(nfam, fi + 2))]
+            groups.append(group)
+            yield [(os.path.join(ctx.tmp, "fam-%d-%d-%d" % (fi, gi, mi)), m["project"], m["sandbox"], "%s/%d/%d/%d" % (ctx.seed, fi, gi, mi), 400)
+                   for gi, fam in enumerate(group) for mi, m in enumerate(fam)]
+            fi += len(group)
 
-    index = [(fi, mi) for fi in range(nmin, nfam) for mi in range(nedits + 1)]
-    for i, r in _stream(ctx, _eval_member, items(), t_oracle * 0.5):
-        fi, mi = index[i]
-        fams[fi][mi]["result"] = r
-        if mi == nedits:
-            fam = fams.pop(fi)
+    for _, results in _stream(ctx, _eval_member, batches(), t_oracle * 0.5):
+        it = iter(results)
+        for fam in groups[-1]:
+            for m in fam:
+                m["result"] = next(it)
             _account_family(ctx, fam)
             if len(all_fams) < 200:      # kept for the revert check and the correspondence; the others are done with
                 all_fams.append(fam)
@@ -450,8 +445,13 @@ def oracle(ctx):
     # the first two in this process (always), the others from a pool while time permits
     for it, (fam, mi) in list(zip(items2, meta))[:2]:
         check_revert(ctx, fam, mi, _eval_revert(it))
-    for i, res in _stream(ctx, _eval_revert, items2[2:], t_oracle * 0.42):
-        check_revert(ctx, meta[i + 2][0], meta[i + 2][1], res)
+    rest = list(zip(items2, meta))[2:]
+    chunks = [rest[i:i + 8] for i in range(0, len(rest), 8)]
+    ci = 0
+    for _, results in _stream(ctx, _eval_revert, ([it for it, _ in c] for c in chunks), t_oracle * 0.42):
+        for (_, (fam, mi)), res in zip(chunks[ci], results):
+            check_revert(ctx, fam, mi, res)
+        ci += 1
     ctx.notes["t_oracle_s"] = round(time.time() - t0, 1)
     _CACHE["fams"] = all_fams
 
